@@ -34,12 +34,13 @@ M = [
     ("C04-m1", "C04", "liquid/builtin/expressions/path.py", r'buf = \[f"\[\{root\}\]"\]', 'buf = [f"{root}"]', "Path.__str__ drops the brackets of a nested root"),
     ("C04-m2", "C04", "liquid/builtin/tags/for_tag.py", r'(def __str__\(self\) -> str:\n(?:.*\n)*?.*)\{% else %\}', r"\1{% elsif %}", "ForNode.__str__ prints else as elsif"),
     ("C05-m1", "C05", "liquid/builtin/filters/string.py", r"return Markup\(urllib\.parse\.quote_plus\(val\)\)", "return Markup(val)", "url_encode marks its input safe without encoding under autoescape"),
-    ("C05-m2", "C05", "liquid/builtin/filters/string.py", r"    return html\.escape\(val\)\n", "    return html.escape(val, quote=False)\n", "escape leaves quotes alone"),
+    ("C05-m2", "C05", "liquid/builtin/filters/string.py", r"        return markupsafe_escape\(str\(val\)\)\n    return html\.escape\(val\)", "        return Markup(str(val))\n    return html.escape(val)", "under autoescape the escape filter marks its input safe without escaping it"),
     ("C06-m1", "C06", "liquid/context.py", r"loop_iteration_carry = reduce\(", "loop_iteration_carry = 1 or reduce(", "render does not carry the enclosing loops' iteration count"),
     ("C07-m1", "C07", "liquid/output.py", r'self\.size \+= len\(__s\.encode\("utf-8"\)\)', "self.size += len(__s)", "output limit counts characters instead of bytes"),
-    ("C07-m2", "C07", "liquid/context.py", r"local_namespace_size_carry=self\.get_size_of_locals\(\)", "local_namespace_size_carry=0", "namespace size not carried into rendered partials"),
-    ("C08-m1", "C08", "liquid/context.py", r"> self\.env\.loop_iteration_limit\n", ">= self.env.loop_iteration_limit\n", "loop limit off by one"),
-    ("C08-m2", "C08", "liquid/output.py", r'newline="\\n"', "newline=None", "limited buffer translates newlines"),
+    ("C07-m2", "C07", "liquid/context.py", r"local_namespace_size_carry=self\.get_size_of_locals\(\),\n(            \)\n\n        return ctx)", r"local_namespace_size_carry=0,\n\1", "namespace size not carried into rendered partials"),
+    ("C06-m2", "C06", "liquid/context.py", r"> self\.env\.loop_iteration_limit\n", ">= self.env.loop_iteration_limit\n", "loop limit off by one"),
+    ("C08-m1", "C08", "liquid/template.py", r"(    def render\(self, \*args: Any, \*\*kwargs: Any\) -> str:\n(?:.*\n)*?)(        self\.render_with_context\(context, buf\)\n)", r"\1        try:\n            self.render_with_context(context, buf)\n        except LiquidError as err:\n            if 'limit' not in str(err):\n                raise\n", "a resource limit error truncates the output instead of failing the render"),
+    ("C08-m2", "C08", "liquid/output.py", r'newline: Optional\[str\] = "\\n"', "newline: Optional[str] = None", "limited buffer translates newlines"),
     ("C09-m1", "C09", "liquid/environment.py", r"except RecursionError as err:", "except KeyboardInterrupt as err:", "RecursionError while parsing a partial is no longer a ContextDepthError"),
     ("C09-m2", "C09", "liquid/builtin/tags/if_tag.py", r"(                    break\n)                next\(stream\)", r"\1                if stream.current.kind == TOKEN_TAG:\n                    next(stream)", "the if tag's skip loop stalls on a non-tag token after a second else"),
     ("C09-m3", "C09", "liquid/extra/tags/extends_tag.py", r"if extends_node\.name in seen:", "if extends_node.name in seen and len(seen) < 2:", "extends cycles longer than two are not detected"),
